@@ -1189,6 +1189,10 @@ class Interp:
             else:
                 raise Unsupported(f"item assignment on {o!r}")
         elif isinstance(t, (ast.Tuple, ast.List)):
+            if isinstance(v, Opaque):
+                for tt in t.elts:
+                    self.assign(tt, Opaque(f"{v.desc}[i]"), env)
+                return
             vals = list(self.iterate(v))
             if any(isinstance(x, ast.Starred) for x in t.elts):
                 raise Unsupported("starred assignment")
